@@ -166,6 +166,11 @@ def run_shard(spec, ctx):
                     b, wb = M.f64(s_k[name])
                     want = (1.0 - e_k) * a + e_k * b
                     got, wg = M.f64(v)
+                    if (wg is None) != (wb is None) or (wg is not None and not np.array_equal(wg, wb)):
+                        ctx.violation("sa/weights-of-statistic-changed", f"iteration {k}: the weights (mask) of the stored statistic '{name}' are not those of the "
+                                      "current statistic - the averaged statistic no longer knows which entries are observed", dict(case, k=k, statistic=name))
+                        bad = True
+                        break
                     sel = wg if wg is not None else np.ones_like(got, dtype=bool)
                     fin = np.isfinite(want) & np.isfinite(got)
                     ok = np.abs(got - want) <= 1e-6 + 2e-5 * np.maximum(np.abs(got), np.abs(want))
